@@ -483,7 +483,13 @@ def run(scenario, world):
             if faulted:
                 world.probe('faulted_evaluation')
                 n = None if vec is None else len(vec)
-                if not fault_expectation(kind, q, res, n):
+                nan_fault = (op.get('fault') or {}).get('kind') == 'nan'
+                if nan_fault:
+                    # the solver returned non-finite values WITHOUT raising:
+                    # no documented value to expect; what matters is that the
+                    # object is unchanged for the evaluations that follow
+                    world.probe('evaluation_with_non_finite_solver_output')
+                elif not fault_expectation(kind, q, res, n):
                     raise Violation(
                         'fault.documented_value', q,
                         '%s.%s under a solver failure returned %s' % (
@@ -1087,7 +1093,7 @@ def generate(rng, index, tier):
             if faults_on and rng.random() < 0.15 and q in (
                     'call', 's1', 'pw', 'sim', 'sample'):
                 op['fault'] = {'at_run': rng.choice([0, 0, 1]),
-                               'kind': 'fail'}
+                               'kind': rng.choice(['fail', 'fail', 'nan'])}
             ops.append(op)
     return {'property': PROP, 'recipes': recipes, 'ops': ops,
             'points': points, 'aux': aux,
